@@ -21,14 +21,23 @@ def enc_result(v):
     return enc.enc_val(v)
 
 
-def gen_doc_for_parts(g, parts):
-    """a document in which the path has a fair chance to select something"""
+EQUAL_VALUES = [1, True, 1.0, 0, False, 0.0, 2, 2.0, "1", "true", None]
+CAST_STRINGS = ["1", "0", "12", "-3", " 7 ", "+5", "1_0", "true", "TRUE", "False", "false", "abc", "", "1.5", "tru", "x1", "None"]
+
+
+def gen_doc_for_parts(g, parts, leaf=None):
+    """a document in which the path has a fair chance to select something; `leaf` draws the selected nodes"""
     r = g.r
-    if r.random() < 0.35 or not parts:
+    if (r.random() < 0.35 and leaf is None) or not parts:
         return g.doc()
+    mode = r.random()
 
     def build(i):
         if i == len(parts):
+            if leaf is not None and r.random() < 0.8:
+                return leaf()
+            if mode < 0.2:
+                return r.choice(EQUAL_VALUES)       # siblings that compare equal but differ in type
             return g.value(1)
         p = parts[i]
         n_extra = r.choice([0, 1, 2])
